@@ -177,7 +177,15 @@ class HistoryUnit(corr.Unit):
             before = norm_components(s1)
             r1 = plain_run(s1, case["strategy"], case["options"])
             res["unchanged"] = before == norm_components(s1)
+
+            def sigtimes(s_):
+                return [str(e.signal_time) for e in list(s_.events.vehicle_events) + list(s_.events.grid_operator_signals)]
+            sig1 = sigtimes(s1)
             r1b = plain_run(s1, case["strategy"], case["options"])            # same object again
+            # strategy constructors may announce events earlier, but only idempotently: a second run must not move them again
+            sig2 = sigtimes(s1)
+            res["signal_times_drift"] = None if sig1 == sig2 else "signal times moved again on the second run: %s -> %s" % (
+                [a for a, b_ in zip(sig1, sig2) if a != b_][:2], [b_ for a, b_ in zip(sig1, sig2) if a != b_][:2])
             s2 = sc.Scenario(copy.deepcopy(case["js"]), "")
             r2 = plain_run(s2, case["strategy"], case["options"])             # fresh load
             res["same_object"] = same_run(r1, r1b)
@@ -207,7 +215,8 @@ class HistoryUnit(corr.Unit):
         if out.get("unchanged") is False:
             v.append(("C16/scenario-mutated", "running the scenario changed its definition (components/events): %s" % d))
         for k, cls in (("same_object", "C16/rerun-same-object"), ("fresh", "C16/rerun-fresh"), ("after_other_strategy", "C16/state-leak-between-strategies"),
-                       ("shift", "C16/week-shift"), ("unrelated", "C16/unrelated-connector")):
+                       ("shift", "C16/week-shift"), ("unrelated", "C16/unrelated-connector"),
+                       ("signal_times_drift", "C16/signal-times-drift")):
             if out.get(k):
                 v.append((cls, "%s: %s" % (out[k], d)))
         return v[:3]
